@@ -1,4 +1,5 @@
 """Remaining property classes: C02, C11, C12, C13, C14, C15, C17, C19."""
+import os
 import re
 import time
 
@@ -88,6 +89,16 @@ class C14(Prop):
             mode = rng.choice([None, 0, 0, 1, 3, 8, 9, 15])
             m = mode or 0
             parts = [complete_document(rng, m) for _ in range(rng.choice([2, 2, 3]))]
+            for k in range(len(parts) - 1):
+                if rng.random() < 0.35:
+                    # a Block Attributes line (classes, id, css, block options) left pending at the end of one call and
+                    # the block it applies to at the start of the next
+                    parts[k] += '\n\n' + rng.choice(['.' + gen.attributes_line(rng)[1:].lstrip(), '.' + ' '.join(rng.sample(gen.OPTIONS, rng.randint(1, 3))),
+                                                     '.note ' + rng.choice(gen.OPTIONS)])
+                    w = plain(rng)
+                    parts[k + 1] = rng.choice(['..\n%s *b* & {m1}\n..', '""\n%s *b*\n""', '``\n- one *%s*\n- two\n``', '%s *b* & {m1}',
+                                               '  indented *%s*', '> %s *b*', '# %s *b*', '- %s *b*\n\n', '<div>%s</div>',
+                                               '--\n%s *b* {m1}\n--']).replace('%s', w) + '\n\n' + parts[k + 1]
             yield {'parts': parts, 'safeMode': mode, 'htmlReplacement': rng.choice([None, '[R]'])}
 
     def execute(self, case, ctx, res):
@@ -150,31 +161,54 @@ class C15(Prop):
     HEADS = ['Alpha', 'alpha', 'ALPHA!', 'a 2', 'a', 'a-2', 'A 2', '!!!', '???', 'x', 'X', 'Beta gamma', 'beta-gamma', 'İstanbul', 'ΑΣ', 'a_b', '٣', 'a--2']
     IDS = ['alpha', 'Alpha', 'a-2', 'x', 'x-2', 'beta-gamma', 'mine', 'MINE', 'a-3']
 
+    def element(self, rng):
+        """One block with the id events it causes, in output order: ['header', text] (an id is generated when header ids
+        are on) or ['explicit', id] (a Block Attributes id lands on the block's first tag)."""
+        k = rng.random()
+        hid = rng.choice(self.IDS)
+        if k < 0.4:
+            h = rng.choice(self.HEADS)
+            return {'src': '%s %s' % ('#' * rng.randint(1, 3), h), 'ev': [['header', h]]}
+        if k < 0.52:
+            return {'src': '.#%s\n%s' % (hid, plain(rng)), 'ev': [['explicit', hid]]}
+        if k < 0.62:
+            return {'src': '.#%s\n# %s' % (hid, rng.choice(self.HEADS)), 'ev': [['explicit', hid]]}
+        if k < 0.9:
+            # every other kind of block that takes attributes, and the places inside a list where they land
+            w = plain(rng)
+            hid2 = rng.choice(self.IDS)
+            src, ev = rng.choice([
+                ('.#%s\n- %s\n- b' % (hid, w), [hid]), ('- a\n\n.#%s\n- %s' % (hid, w), [hid]), ('- a\n.#%s\n- %s' % (hid, w), [hid]),
+                ('T:: %s\n\n.#%s\nU:: e' % (w, hid), [hid]), ('T:: d\n.#%s\nU:: %s' % (hid, w), [hid]), ('.#%s\nT:: %s\nU:: e' % (hid, w), [hid]),
+                ('.#%s\n..\n%s\n..' % (hid, w), [hid]), ('.#%s\n""\n%s\n""' % (hid, w), [hid]), ('.#%s\n```\ncode\n```' % hid, [hid]),
+                ('.#%s\n  indented' % hid, [hid]), ('.#%s\n> %s' % (hid, w), [hid]), ('.#%s\n<image:x.png>' % hid, [hid]),
+                ('- a\n.#%s\n..\n%s\n..\n- b' % (hid, w), [hid]), ('.#%s\n/*\nc\n*/\n%s' % (hid, w), [hid]),
+                ('.#%s\n\n.#%s\n%s' % (hid, hid2, w), [hid2]), ('.#%s\n. a\n.. b' % hid, [hid]),
+                ('.#%s\nT:: d\n\n.#%s\nU:: %s' % (hid, hid2, w), [hid, hid2]),
+                ('.#%s\n- a\n.#%s\n- b\n\n.#%s\n- c' % (hid, hid2, hid), [hid, hid2, hid]),
+                ('.#%s\n..\n.#%s\n%s\n..' % (hid, hid2, w), [hid, hid2]),
+            ])
+            return {'src': src, 'ev': [['explicit', x] for x in ev]}
+        return {'src': plain(rng), 'ev': []}
+
     def cases(self, ctx):
         rng = ctx.rng
         while True:
             docs = []
             for d in range(rng.randint(1, 4)):
-                lines = []
+                els = []
                 if d == 0 or rng.random() < 0.2:
-                    lines.append("{--header-ids} = '%s'" % rng.choice(['true', 'true', 'x', '']))
+                    v = rng.choice(['true', 'true', 'x', ''])
+                    els.append({'src': "{--header-ids} = '%s'" % v, 'ev': [['hid', v]]})
                 for _ in range(rng.randint(1, 5)):
-                    k = rng.random()
-                    if k < 0.55:
-                        lines.append('%s %s' % ('#' * rng.randint(1, 3), rng.choice(self.HEADS)))
-                    elif k < 0.75:
-                        lines.append('.#%s\n%s' % (rng.choice(self.IDS), plain(rng)))
-                    elif k < 0.9:
-                        lines.append('.#%s\n# %s' % (rng.choice(self.IDS), rng.choice(self.HEADS)))
-                    else:
-                        lines.append(plain(rng))
-                docs.append('\n\n'.join(lines))
+                    els.append(self.element(rng))
+                docs.append(els)
             yield {'docs': docs, 'reset_at': rng.choice([None, None, 1, 2])}
 
     def execute(self, case, ctx, res):
         steps = []
         for i, d in enumerate(case['docs']):
-            st = {'src': d, 'callback': True}
+            st = {'src': '\n\n'.join(e['src'] for e in d), 'callback': True}
             if i == 0:
                 st['safeMode'] = 0
             if case['reset_at'] == i and i > 0:
@@ -194,35 +228,24 @@ class C15(Prop):
                 header_ids = ''
             expected_ids = []
             expected_dups = []
-            pending = None
-            for line in st['src'].split('\n'):
-                m = re.match(r"^\{--header-ids\} = '(.*)'$", line)
-                if m:
-                    header_ids = m.group(1)
-                    continue
-                m = re.match(r'^\.#(\S+)$', line)
-                if m:
-                    pending = m.group(1)
-                    continue
-                m = re.match(r'^#+ (.*)$', line)
-                if m or (line and not line.startswith('{')):
-                    # a rendered block: consumes a pending id, or (headers) generates one
-                    if pending is not None:
-                        pid = pending.lower()
-                        if pid in used:
-                            expected_dups.append(pid)
-                            collision = True
-                        else:
-                            used.insert(0, pid)
-                        expected_ids.append(pid)
-                        pending = None
-                    elif m and header_ids:
-                        base = ref_slug(m.group(1), [])
-                        pid = ref_slug(m.group(1), used)
-                        if pid != base:
-                            collision = True
+            for kind, val in (ev for e in case['docs'][i] for ev in e['ev']):
+                if kind == 'hid':
+                    header_ids = val
+                elif kind == 'explicit':
+                    pid = val.lower()
+                    if pid in used:
+                        expected_dups.append(pid)
+                        collision = True
+                    else:
                         used.insert(0, pid)
-                        expected_ids.append(pid)
+                    expected_ids.append(pid)
+                elif header_ids:
+                    base = ref_slug(val, [])
+                    pid = ref_slug(val, used)
+                    if pid != base:
+                        collision = True
+                    used.insert(0, pid)
+                    expected_ids.append(pid)
             got_ids = re.findall(r' id="([^"]*)"', o[1])
             got_dups = [m[len("duplicate 'id' attribute: "):] for m in o[2] if m.startswith("duplicate 'id' attribute: ")]
             for g in got_ids:
@@ -293,7 +316,15 @@ class C19(Prop):
                 parts.append(block)
                 expect = 'unterminated %s block' % name
             elif f == 'undefined-macro':
-                parts.insert(rng.randrange(2, len(parts) + 1), plain(rng) + ' {m3} ' + plain(rng))
+                # the misspelt invocation in every position where macros are expanded
+                w = plain(rng)
+                host = rng.choice(['%s {m3} %s' % (w, plain(rng)), '.cls [title="{m3}"]\n' + w, '."color: {m3}"\n' + w, '# %s {m3}' % w,
+                                   '- %s {m3}\n- x' % w, '..\n%s {m3}\n..' % w, '<http://a.com/|{m3}>', '.+macros\n```\ncode {m3}\n```',
+                                   'term:: %s {m3}' % w, '""\n%s {m3}\n""' % w, '<div title="{m3}">', '{m3}',
+                                   '- item\n.box [title="{m3}"]\n..\ninner\n..', '*{m3}*', '[{m3}](http://x.y/)', '`{m3}`',
+                                   '.#i%d "margin: {m3}" [data-x="{m3}"]\n..\n%s\n..' % (rng.randint(1, 9999), w),
+                                   '{m3} ' + w])
+                parts.insert(rng.randrange(2, len(parts) + 1), host)
                 expect = 'undefined macro: {m3}'
             elif f == 'option-value':
                 parts.insert(rng.randrange(2, len(parts) + 1), ".safeMode = '%s'" % rng.choice(['x', '16', '-1', '']))
@@ -747,11 +778,36 @@ class C02(Prop):
         out.append({'kind': 'pump', 'src': '.a' + ' ' * 2000 + '!', 'safeMode': 1, 'size': 2003})
         return out
 
+    def derived(self, ctx):
+        """pumped inputs derived from the parse trees of the patterns found in the current source (tools/harness/pump.py)"""
+        from . import pump
+        path = os.path.join(os.path.dirname(os.path.abspath(__file__)), '..', '..', 'lean', 'RimuModel', 'Generated', 'sites.json')
+        if not os.path.exists(path):
+            return [], []
+        entries = pump.pool(pump.load_sites(path))
+        flagged, timed = pump.prescreen(entries)
+        self.prescreen_stats = {'patterns': len(set(e[0] for e in entries)), 'pumped_strings': len(entries), 'timed': timed,
+                                'flagged': len(flagged)}
+        return entries, flagged
+
     def cases(self, ctx):
         rng = ctx.rng
         size = 4096 if ctx.tier == 'quick' else 8192
+        entries, flagged = self.derived(ctx)
+        from . import pump
+        for f in flagged:
+            # direct search on this pattern grows faster than quadratically: does a render reach it?
+            for mode in (1, 5):
+                yield {'kind': 'pump', 'src': pump.build(f['prefix'], f['unit'], f['suffix'], size) + '\nnext line', 'safeMode': mode,
+                       'size': size, 'derived_from': f['site'], 'prescreen': f}
         while True:
-            if rng.random() < 0.25:
+            k = rng.random()
+            if k < 0.25 and entries:
+                key, _pat, _fl, prefix, unit, suf = rng.choice(entries)
+                lead = rng.choice(['', '', 'x ', '.', '- '])
+                yield {'kind': 'pump', 'src': lead + pump.build(prefix, unit, suf, size) + '\nnext line', 'safeMode': rng.randint(1, 7),
+                       'size': size, 'derived_from': key}
+            elif k < 0.45:
                 names = ['m', 'n', 'k']
                 lines = []
                 for _ in range(rng.randint(1, 3)):
@@ -808,6 +864,10 @@ class C02(Prop):
             res.count('macro')
             return
         # pumped input: CPU time of the implementation at full and half size
+        for k, v in getattr(self, 'prescreen_stats', {}).items():
+            res.distribution['regex_prescreen_' + k] = v
+        if case.get('derived_from'):
+            res.count('pump_derived_from_pattern')
         limit = 10.0 if ctx.tier == 'quick' else 20.0
         old = impl.budget
         impl.budget = limit * 3
@@ -817,6 +877,11 @@ class C02(Prop):
             a = impl.render(case['src'], safeMode=case['safeMode'], reset=True)
             t_full = time.process_time() - t0
             res.oracle_checks += 1
+            if a[0] == 'fuel' and a[1] != 'budget' and t_full <= limit:
+                # The call stack (or memory) ran out quickly: a pumped quote nests more than a thousand levels deep.  That
+                # is not a running-time matter, and C01 claims nesting up to depth 50 only; counted, not a C02 violation.
+                res.count('pump_ended_in_%s' % a[1])
+                return
             if a[0] == 'fuel' or t_full > limit:
                 res.violation('%d bytes of input took more than %.0f s of CPU (%s)' % (len(case['src']), limit, a[0]), case, t_full)
                 return
